@@ -143,18 +143,21 @@ def handleC36 (j : Json) : Json :=
     let req := if method == "WatchServiceStatus" || method == "NodeStatusStream" then "" else req
     let script := (enumFrom 0 (jarr (jget j "script"))).map fun (i, s) => streamOfJson i s
     let ca : Option Nat := if jint (jget j "cancel_after") < 0 then none else some (jnat (jget j "cancel_after"))
-    let r := runStream watch max ca script req
+    let cb := jbool (jget j "cancel_blocked")
+    let cbFired := cb && jhas impl "seen_at_cancel"
+    -- transport parameter `reach = false`: the assumption under which the cancellation theorems are stated
+    let r := runStream false watch max ca cb script req
     let agree := !crash && r.delivered == delivered && r.final.reqs == seen && errName r.err == ierr
     -- the specification decides "watch stream" by the property's own list, not by the code's allow-list
     let specWatch := watchMethods.contains ("/pb.CoreRPC/" ++ method)
-    let viol := specStream specWatch max ca script req delivered seen (jnat (jget impl "seen_at_cancel")) ++
+    let viol := specStream specWatch max ca cbFired script req delivered seen (jnat (jget impl "seen_at_cancel")) ++
                 specAllow (jstrs (jget j "allow"))
     let reopened := seen.length > 1
     verdict id agree
       (Json.mkObj [("delivered", Json.arr (r.delivered.map Json.str).toArray), ("seen", r.final.reqs.length), ("err", errName r.err)])
       (viol.map ("C36:" ++ ·))
-      ((if watch then "watch" else "plain") ++ (if ca.isSome then "-cancel" else "") ++ (if reopened then "-reopened" else ""))
-      (watch && !reopened && ca.isNone)
+      ((if watch then "watch" else "plain") ++ (if ca.isSome then "-cancel" else "") ++ (if cbFired then "-cancelblocked" else "") ++ (if reopened then "-reopened" else ""))
+      (watch && !reopened && ca.isNone && !cb)
 end C36
 
 /-! ## C16 -/
